@@ -76,6 +76,7 @@ type Interp struct {
 	phase         int
 	phases        map[int]*phaseLog
 	syncUses     []string
+	pools        map[*Value][]Value
 	nondetUses   []string
 	// statistics
 	FnInstr map[string]int64
